@@ -224,8 +224,13 @@ func exec(o op, vals []value) (res obsv) {
 		cl := csproto.Clone(u)
 		eq := csproto.Equal(u, u)
 		_, terr := csproto.MarshalText(u)
-		res.got = fmt.Sprintf("MsgType=%d Marshal=%v Unmarshal=%v Size=%d Clone=nil:%v Equal=%v MarshalText-err=%v", mt, errors.Is(merr, csproto.ErrMarshaler), errors.Is(uerr, csproto.ErrUnmarshaler), sz, cl == nil, eq, terr != nil)
-		res.want = "MsgType=0 Marshal=true Unmarshal=true Size=0 Clone=nil:true Equal=false MarshalText-err=true"
+		_, cmerr := csproto.GrpcCodec{}.Marshal(u)
+		cuerr := csproto.GrpcCodec{}.Unmarshal([]byte{8, 1}, u)
+		cuerr0 := csproto.GrpcCodec{}.Unmarshal(nil, u)
+		uerr0 := csproto.Unmarshal(nil, u)
+		res.got = fmt.Sprintf("MsgType=%d Marshal=%v Unmarshal=%v/%v Size=%d Clone=nil:%v Equal=%v MarshalText-err=%v codec=%v/%v/%v", mt, errors.Is(merr, csproto.ErrMarshaler), errors.Is(uerr, csproto.ErrUnmarshaler), errors.Is(uerr0, csproto.ErrUnmarshaler), sz, cl == nil, eq, terr != nil,
+			errors.Is(cmerr, csproto.ErrMarshaler), errors.Is(cuerr, csproto.ErrUnmarshaler), errors.Is(cuerr0, csproto.ErrUnmarshaler))
+		res.want = "MsgType=0 Marshal=true Unmarshal=true/true Size=0 Clone=nil:true Equal=false MarshalText-err=true codec=true/true/true"
 		return
 	}
 	v := vals[o.val]
@@ -269,8 +274,15 @@ func exec(o op, vals []value) (res obsv) {
 		res.got, res.want = fmt.Sprint(n), fmt.Sprint(wn)
 	case oUnmarshal, oCodec:
 		b := corpus.Encode(corpus.Wrap(v.m))
+		if o.uns%3 == 0 {
+			b = nil // a message of all defaults travels as a zero-length payload
+		}
 		dst := v.k.new()
 		d2 := v.k.new()
+		if o.val2 != o.val && vals[o.val2].k.name == v.k.name {
+			// a reused destination that still holds another message (e.g. a stream receive loop)
+			dst, d2 = corpus.FreshCopy(vals[o.val2].m), corpus.FreshCopy(vals[o.val2].m)
+		}
 		var werr error
 		if v.k.fast {
 			ownPanics = own(func() { werr = d2.(corpus.FM).Unmarshal(b) })
